@@ -112,13 +112,14 @@ func genNrm2(g *vlib.G) {
 						comps = 2
 					}
 					maxUlps := 0.0
-					for _, inc := range []int{1, 2, 3, -1, -2} {
+					for ii, inc := range []int{1, 2, 3, -1, -2, 1, 3} {
+						finite := ii >= 3 // the last four runs use finite sentinels around x
 						c := &Call{R: r, P: p, N: n, Ld: []int{0}, Inc: []int{inc}}
 						o := newOp(c, 0, 1, false)
 						total := padPre + o.n + padCap + padPost
 						st := newStore(p, total)
 						for i := 0; i < total; i++ {
-							st.setPoison(i, i)
+							st.fillGuard(i, i, finite)
 						}
 						sum := new(big.Float).SetPrec(bigPrec)
 						for i := 0; i < n; i++ {
